@@ -44,8 +44,13 @@ use super::*;
 //@fn is_reserved_keyword
 //@fn is_valid_identifier
 //@fn UserFunctions::add_boxed_function
+//@fn UserFunctions::add_function
 //@fn ruleset
 //@fn Builder::with_rule
+//@alias src/function.rs BoxedFunction
+//@fn Builder::with_rules
+//@fn Builder::with_functions
+//@fn Builder::with_function
 //@fn Symbols::insert
 //@fn Builder::with_symbol
 //@fn Builder::build
